@@ -249,6 +249,10 @@ func Generate(r *sim.Rng, prop, tier string, idx int) *sim.Case {
 		default:
 			task.Ops = append(task.Ops, sim.Op{K: "get", S: k})
 		}
+		if c.Knobs["flavor"] == 1 {
+			// ECache: address the entry through one of three aliases
+			task.Ops[len(task.Ops)-1].N = int64(r.Intn(3))
+		}
 	}
 	c.Tasks = []sim.Task{task}
 	// loader plan
@@ -289,6 +293,9 @@ func genConc(r *sim.Rng, c *sim.Case, keys []string) {
 				task.Ops = append(task.Ops, sim.Op{K: "clear"})
 			default:
 				task.Ops = append(task.Ops, sim.Op{K: "get", S: k})
+			}
+			if c.Knobs["flavor"] == 1 {
+				task.Ops[len(task.Ops)-1].N = int64(r.Intn(3))
 			}
 		}
 		c.Tasks = append(c.Tasks, task)
